@@ -71,7 +71,7 @@ def hol_systems(tier):
         yield ['R', [list(x) for x in m]]
     rowsB = [[a_, b_, op, k_] for (a_, b_) in cf for op in tier_param(tier, ('<=', '>', '>='), ops) for k_ in (0, 1)]
     for m in itertools.product(rowsB, repeat=3):
-        if m[0] <= m[1] <= m[2] or tier != 'quick':
+        if m[0] <= m[1] <= m[2]:        # unordered triples (the procedures see the rows in this one order)
             yield ['R', [list(x) for x in m]]
     rowsI = [[a_, b_, op, k_] for (a_, b_) in cf2 for op in ('<=', '>=') for k_ in tier_param(tier, (0, 1), (-1, 0, 1, 2))]
     for n in (1, 2):
